@@ -36,8 +36,8 @@ def run(ctx):
     fields = {(s["f"], s["v"]) for b in beh for s in b["steps"] if s["act"] == "tamper"}
     if len(fields) < 16:
         raise verif.ToolError("vacuous enumeration: only %d tamper variants" % len(fields))
-    if ctx.thorough and len(beh) > 6000:
-        beh = verif.sample(ctx.rng, beh, 6000)
+    if ctx.thorough and len(beh) > 20000:
+        beh = verif.sample(ctx.rng, beh, 20000)
     res = ctx.run_engine(vh, "tamper", beh, timeout=2400)
     if len(res) != len(beh):
         raise verif.ToolError("engine returned %d results for %d behaviours" % (len(res), len(beh)))
@@ -62,7 +62,7 @@ def run(ctx):
             notes[n] = notes.get(n, 0) + 1
     keyf = lambda b: json.dumps(b["steps"], sort_keys=True)
     ctx.cov.update({
-        "exhaustive": not (ctx.thorough and len(r.replays) > 6000),
+        "exhaustive": not (ctx.thorough and len(r.replays) > 20000),
         "evaluations": len(beh),
         "distinct": len({keyf(b) for b in beh}),
         "distinct_nontrivial": len({keyf(b) for b in beh if any(s["act"] == "tamper" for s in b["steps"])}),
